@@ -326,10 +326,10 @@ func sourceOf(sc *proto.Scenario, obj int) int {
 // ---------------------------------------------------------------------------
 
 type knownFinding struct {
-	Property string   `json:"property"`
-	Class    string   `json:"class"`
-	Kind     string   `json:"culprit_kind"`
-	Context  string   `json:"context,omitempty"`
+	Property string `json:"property"`
+	Class    string `json:"class"`
+	Kind     string `json:"culprit_kind"`
+	Context  string `json:"context,omitempty"`
 	// PathPatterns: regular expressions; every normalised path of the finding
 	// must match at least one of them, otherwise it is a different violation.
 	PathPatterns []string `json:"path_patterns,omitempty"`
@@ -393,7 +393,6 @@ func (k *knownFile) match(prop string, f *finding) *knownFinding {
 	}
 	return nil
 }
-
 
 // twinDiff compares what two executions of one scenario returned to their
 // callers (success, output bytes, reflection data, panic presence).
